@@ -1,6 +1,33 @@
 import CalmVerif.Props.C11
+import CalmVerif.Props.C11comp
 open CalmVerif.Props.C11
 #print axioms actions_anchor_ok
 #print axioms actions_cover_grammar
 #check @actions_anchor_ok
 #check @actions_cover_grammar
+
+open CalmVerif.Props.C11comp
+
+#print axioms extra_ok
+#check @extra_ok
+#print axioms only_element_list_untracked
+#check @only_element_list_untracked
+#print axioms tracking_invariant
+#check @tracking_invariant
+#print axioms empty_production_pos
+#check @empty_production_pos
+#print axioms composition
+#check @composition
+#print axioms built_nodes_cover
+#check @built_nodes_cover
+#print axioms node_anchor_ok
+#check @node_anchor_ok
+#print axioms tokmap_entries_ok
+#check @tokmap_entries_ok
+#print axioms elision_runs_ok
+#check @elision_runs_ok
+#print axioms node_positions_summary
+#check @node_positions_summary
+#print axioms parse_configs_reachable
+#check @parse_configs_reachable
+
